@@ -110,6 +110,7 @@ type WorldCfg struct {
 	CtxAware       bool      `json:"ctxAware,omitempty"`       // storage flavour: a call whose context is done when it gets to run returns the context's error
 	TenantKeys     bool      `json:"tenantKeys,omitempty"`     // storage flavour: signing keys are per tenant, found through the issuer value of the context
 	TenantSessions bool      `json:"tenantSessions,omitempty"` // storage flavour: stored requests are kept per tenant (the issuer value of the context); ids are per-tenant counters, so the same id exists in several tenants
+	LiveRecords    bool      `json:"liveRecords,omitempty"`    // storage flavour: AuthRequestByID hands out a live view — Done() and GetUserID() read the stored request's current state at the moment they are called
 	OwnSlices      bool      `json:"ownSlices,omitempty"`      // storage flavour: an in-memory storage that passes the value slices it holds itself to SetCustomAttribute (no copy per call)
 	TypedNil       bool      `json:"typedNil,omitempty"`       // storage flavour: a failing request lookup / persist returns its error next to a typed nil pointer (var r *record; return r, err)
 	Neighbours     bool      `json:"neighbours,omitempty"`     // other provider instances (other issuer, other endpoint paths) are constructed in the same process
